@@ -427,6 +427,12 @@ pub fn run(cfg: &Cfg, rep: &mut Report, spec: &Spec) {
     if spec.prop == "C13" && cfg.shard == 0 {
         cell_negative_templates(rep);
     }
+    if spec.prop == "C11" {
+        crate::props::c11seq::run(cfg, rep);
+    }
+    if spec.prop == "C07" || spec.prop == "C12" {
+        crate::props::c07order::run(cfg, rep, spec.prop);
+    }
     let n = cfg.per_shard(spec.quick, spec.thorough);
     let mut reported = 0;
     for i in 0..n {
